@@ -36,6 +36,23 @@ def _field_read_arg(s):
     return None
 
 
+_INST_CACHE = {}      # (id(schema), ids of the argument terms) -> (schema, terms, instance)      [per process]
+_SCAN_CACHE = {}      # formula id -> (formula, found, fields, axioms)                              [per process]
+_CLS_SEEN = None
+
+
+def _scan_formula(f, class_axioms):
+    """classification of the subterms of one formula + the generic axioms of its own terms (cached per formula)"""
+    hit = _SCAN_CACHE.get(f.get_id())
+    if hit is not None:
+        return hit[1], hit[2], hit[3]
+    sc = T.Scanner()
+    found, fields = sc.add([f])
+    ax = T.axioms_for(found, class_axioms, set())
+    _SCAN_CACHE[f.get_id()] = (f, found, fields, ax)
+    return found, fields, ax
+
+
 def build_query(ob, class_axioms, base_facts, rounds=3):
     """hypotheses + negated goal, tool-side instantiation of the quantified hypotheses (DESIGN.md 3.4) and saturation
     with the generic axioms of the uninterpreted list algebra.  Instantiation is trigger driven:
@@ -48,36 +65,61 @@ def build_query(ob, class_axioms, base_facts, rounds=3):
     else:
         core = list(ob.hyps) + [T.neg(ob.goal)]
     core += base_facts
-    sc = T.Scanner()
-    seen_cls = set()
-    allf = list(core)
-    work = list(core)
+    allf = {}
+    work = []
+    for f in core:
+        if f.get_id() not in allf:
+            allf[f.get_id()] = f
+            work.append(f)
     U = {}
     pairs = {}
     ftuples = {}
+    cnt_atoms = {}
     done = set()
     ninst = 0
     for _rnd in range(rounds):
-        found, fields = sc.add(work)
-        new = T.axioms_for(found, class_axioms, seen_cls)
-        for t in found["ref"]:
-            U.setdefault(t.get_id(), t)
-        for t in found["cnt"]:
-            v = _field_read_arg(t.arg(0))
-            if v is not None:
-                x = t.arg(1)
-                pairs.setdefault((v.get_id(), x.get_id()), (v, x))
-                pairs.setdefault((x.get_id(), v.get_id()), (x, v))
-        for fname, tups in fields.items():
-            d = ftuples.setdefault(fname, {})
-            for tp in tups:
-                d.setdefault(tuple(a.get_id() for a in tp), tp)
+        new = []
+        for f in work:
+            found, fields, ax = _scan_formula(f, class_axioms)
+            new.extend(ax)
+            for t in found["ref"]:
+                U.setdefault(t.get_id(), t)
+            for t in found["cnt"]:
+                s0, x = t.arg(0), t.arg(1)
+                cnt_atoms.setdefault((s0.get_id(), x.get_id()), (s0, x))
+                vs = []
+                v = _field_read_arg(s0)
+                if v is not None:
+                    vs.append(v)
+                elif z3.is_app(s0) and s0.decl().kind() == z3.Z3_OP_UNINTERPRETED and s0.num_args() > 0:
+                    # a spec function of some references (e.g. NBf(links(v), v, d, u, f)): pair its reference arguments with x
+                    vs.extend(a for a in s0.children() if a.sort().eq(Ref))
+                for v in vs:
+                    pairs.setdefault((v.get_id(), x.get_id()), (v, x))
+                    pairs.setdefault((x.get_id(), v.get_id()), (x, v))
+            for fname, tups in fields.items():
+                d = ftuples.setdefault(fname, {})
+                for tp in tups:
+                    d.setdefault(tuple(a.get_id() for a in tp), tp)
         Ul = list(U.values())
         if len(Ul) > MAX_UNIVERSE:
             Ul.sort(key=lambda t: len(t.sexpr()))
             Ul = Ul[:MAX_UNIVERSE]
         for si, sch in enumerate(ob.schemas):
-            if sch.trigger and sch.trigger != ("product",):
+            if sch.trigger and sch.trigger[0] == "cnt-args":
+                # y ranges over the elements whose count in one of the given sequence terms is mentioned (plus the units)
+                want = {t.get_id() for t in sch.trigger[1]}
+                ys = {}
+                for y in sch.trigger[2]:
+                    ys[y.get_id()] = y
+                for (sid_, xid_), (s_, x_) in cnt_atoms.items():
+                    if sid_ in want:
+                        ys[xid_] = x_
+                for t in U.values():          # the skolem constants of the goal are always relevant
+                    if z3.is_const(t) and t.decl().name().startswith(("sk", "k_")):
+                        ys[t.get_id()] = t
+                tuples = [(y,) for y in ys.values()]
+            elif sch.trigger and sch.trigger != ("product",):
                 tuples = []
                 for fname in sch.trigger:
                     for tp in ftuples.get(fname, {}).values():
@@ -96,21 +138,30 @@ def build_query(ob, class_axioms, base_facts, rounds=3):
                 tuples = list(itertools.product(Ul, repeat=len(sch.sorts)))
             else:
                 raise ValueError(f"schema {sch.name}: non-reference sorts need a trigger")
+            sid = id(sch)
             for tup in tuples:
-                key = (si,) + tuple(x.get_id() for x in tup)
+                key = (sid,) + tuple(x.get_id() for x in tup)
                 if key in done:
                     continue
                 done.add(key)
-                f = sch.fn(*tup)
+                hit = _INST_CACHE.get(key)
+                if hit is None:
+                    f = sch.fn(*tup)
+                    _INST_CACHE[key] = (sch, tup, f)
+                else:
+                    f = hit[2]
                 if z3.is_true(f):
                     continue
                 new.append(f)
                 ninst += 1
-        if not new:
+        work = []
+        for f in new:
+            if f.get_id() not in allf:
+                allf[f.get_id()] = f
+                work.append(f)
+        if not work:
             break
-        allf.extend(new)
-        work = new
-    return allf, ninst
+    return list(allf.values()), ninst
 
 
 def run_cvc5(smt2: str, timeout_ms: int):
@@ -154,6 +205,25 @@ def discharge(ob, class_axioms, base_facts, want_model=True) -> Result:
                     s = s2
                 else:
                     s = None
+    if r == z3.unknown and ob.expect != "sat":
+        # the solvers are slow at *finding* models over sequences: look for a small counter-model (every sequence-valued
+        # uninterpreted term of length <= 3).  Sound for refutation: a bounded model is a model.
+        bounds = []
+        seen = set()
+        for t in T.subterms(fs):
+            if z3.is_app(t) and t.sort().eq(T.RSeq) and t.decl().kind() == z3.Z3_OP_UNINTERPRETED and t.get_id() not in seen:
+                seen.add(t.get_id())
+                bounds.append(z3.Length(t) <= 3)
+        for seed_ in (0, 3):
+            s4 = z3.Solver()
+            s4.set("timeout", 15000)
+            s4.set("random_seed", seed_)
+            s4.add(*fs)
+            s4.add(*bounds)
+            r4 = s4.check()
+            if r4 == z3.sat:
+                r, s, backend = z3.sat, s4, backend + "+small-model"
+                break
     dt = time.time() - t0
     if ob.expect == "sat":
         if r == z3.sat:
